@@ -68,6 +68,49 @@ func frameStoresIn(fn *ssa.Function) []frameStore {
 	return out
 }
 
+// handoverOf: the instructions by which an originator hands the finished frame over: the call of its hand-over
+// callee (first == last) or, where the marshal-and-write helper has been inlined into the originator, the
+// marshalTo of the frame (first: what must follow signing and checksumming) and the write of the marshalled
+// bytes to the transport (last: what must have succeeded before the sequence counter advances).
+func handoverOf(fn *ssa.Function, o originator) (first, last []ssa.CallInstruction) {
+	if hs := callsNamed(fn, o.handover); len(hs) > 0 {
+		return hs, hs
+	}
+	first = callsIn(fn, func(_ string, cc *ssa.CallCommon) bool { return cc.IsInvoke() && cc.Method.Name() == "marshalTo" })
+	last = callsIn(fn, func(_ string, cc *ssa.CallCommon) bool {
+		return cc.IsInvoke() && cc.Method.Name() == "Write" && ex(cc.Value) == "recv.ByteWriter"
+	})
+	if len(first) == 1 && len(last) == 1 && !instrDominates(first[0], last[0]) {
+		return nil, nil
+	}
+	return first, last
+}
+
+// handedFrame renders the frame a hand-over instruction carries.
+func handedFrame(h ssa.CallInstruction) string {
+	cc := h.Common()
+	if cc.IsInvoke() {
+		return ex(cc.Value)
+	}
+	return ex(cc.Args[len(cc.Args)-1])
+}
+
+// errValueOf: the error result of a call (the call itself, or the extraction of its error component).
+func errValueOf(call *ssa.Call) ssa.Value {
+	if typeStr(call.Type()) == "error" {
+		return call
+	}
+	var ev ssa.Value
+	if call.Referrers() != nil {
+		for _, rf := range *call.Referrers() {
+			if e, ok := rf.(*ssa.Extract); ok && typeStr(e.Type()) == "error" {
+				ev = e
+			}
+		}
+	}
+	return ev
+}
+
 func isEncodeCall(n string) bool {
 	return strings.HasSuffix(n, ".encodeMessageInFrame") || n == "(message.ReadWriter).Write" || n == "(gomavlib.Node).encodeFrame"
 }
@@ -363,10 +406,10 @@ func runC06(c *Ctx) {
 				}
 			}
 			// hand-over after signing
-			hs := callsNamed(fn, o.handover)
+			hs, _ := handoverOf(fn, o)
 			if len(hs) != 1 || !reachInstr(S, hs[0]) || reachInstr(hs[0], S) {
 				probs = append(probs, "the frame is not handed to "+o.handover+" after signing")
-			} else if a := hs[0].Common().Args; ex(a[len(a)-1]) != "arg0" {
+			} else if handedFrame(hs[0]) != "arg0" {
 				probs = append(probs, "a different frame than the signed one is written")
 			}
 		}
@@ -907,7 +950,8 @@ func runC09(c *Ctx) {
 				}
 			}
 			if o.handover != "" {
-				for _, h := range callsNamed(fn, o.handover) {
+				hs, _ := handoverOf(fn, o)
+				for _, h := range hs {
 					if !reachInstr(cs.st, h) {
 						probs = append(probs, "checksum computed after the hand-over")
 					}
@@ -971,15 +1015,16 @@ func runC09(c *Ctx) {
 				if inLoop(st.Block()) {
 					probs = append(probs, "increment inside a loop")
 				}
-				hs := callsNamed(fn, o.handover)
+				_, hs := handoverOf(fn, o)
 				if len(hs) != 1 {
 					probs = append(probs, fmt.Sprintf("%d hand-over calls", len(hs)))
 				} else {
 					h := hs[0].(*ssa.Call)
+					herr := errValueOf(h)
 					okEdge := false
 					for _, iff := range ifsIn(fn) {
 						b, isB := iff.Cond.(*ssa.BinOp)
-						if !isB || b.X != ssa.Value(h) || !isNilConst(b.Y) {
+						if !isB || herr == nil || b.X != herr || !isNilConst(b.Y) {
 							continue
 						}
 						if b.Op == token.NEQ && edgeMustPass(fn, edge{iff.Block(), iff.Block().Succs[1]}, st.Block()) {
@@ -994,7 +1039,7 @@ func runC09(c *Ctx) {
 						var ret ssa.Instruction
 						if in, found := pathExistsAvoiding(st, func(in ssa.Instruction) bool {
 							rt, isR := in.(*ssa.Return)
-							return isR && len(rt.Results) == 1 && !isNilConst(rt.Results[0]) && rt.Results[0] != ssa.Value(h)
+							return isR && len(rt.Results) == 1 && !isNilConst(rt.Results[0]) && rt.Results[0] != herr
 						}, func(in ssa.Instruction) bool { return in == ssa.Instruction(h) }); found {
 							ret = in
 						}
